@@ -39,6 +39,10 @@ func runC07(c *Ctx) {
 	// is not shared between operations (C11/per-operation-message)
 	c03Cache(c)
 	c11PerOperationMessage(c)
+	noSharedErrorValues(c)
+	noMapCacheInRuntime(c)
+	// a persisted query is registered only under its own hash (C15/add-guarded)
+	c15AddGuardedRule(c)
 }
 
 func isZeroValue(v ssa.Value) bool {
